@@ -7,14 +7,20 @@ def claim(pid, text, note, technique, design_ref):
 
 
 claim("C08",
-      text="Lean 4 theorems over a model of tsdb.escape/unescape/split/join/cast/format and itsdb.Row state the "
-           "encoding clauses for every string, record and integer (unescape∘escape = id, no raw newline/delimiter, "
-           "injectivity, rejection of malformed escapes, split∘join = id modulo ''/None, exactly n-1 delimiters, "
-           "int round trip); the model is tied to the code by running both on >10k generated "
-           "inputs per run (exhaustive over the special alphabet up to length 4/5) and by escape/month tables regenerated from the "
-           "live module. The float clause is outside any model (CPython repr) and is decided by a direct oracle only.",
+      text="19 Lean 4 theorems over a model of tsdb.escape/unescape/split/join/cast/format and itsdb.Row state the encoding "
+           "clauses for every string, record, integer and date-time: unescape∘escape = id and escape∘unescape = id on the image, "
+           "unescape succeeds exactly on well-escaped text, no raw newline/delimiter in an escaped value, injectivity, "
+           "split∘join = id modulo ''/None (with and without the trailing newline), exactly n-1 delimiters, join injective; "
+           "cast(format(i)) = i for every Int; parseDate(formatDate t) = t for every calendar-valid instant with year 1000-9999 "
+           "(through the two date regexes, _date_fix and the strptime acceptance model); row access by index (any sign), slice "
+           "(any start/stop/step), name and iteration all equal the cast of the stored raw data. The model is tied to the code by "
+           "running both on >10k generated inputs per run (exhaustive over the special alphabet up to length 4/5, every documented "
+           "date spelling of boundary instants) and by escape/month tables regenerated from the live module. The float clause is "
+           "outside any model (CPython repr) and is decided by a direct oracle only; 'all documented date spellings denote the "
+           "same instant' is decided by oracle + correspondence (the theorem covers the spelling format() produces).",
       note="Trusted: Lean kernel + propext/Classical.choice/Quot.sound; the hand-written model (validated only on generated "
-           "inputs); Python harness and its naive oracle. Not modelled: float repr, non-ASCII int()/date spellings.",
+           "inputs); Python harness and its naive oracle. Not modelled: float repr, non-ASCII int()/date spellings ('unmodelled' "
+           "answers are not compared), the strptime library (acceptance model compared on all generated spellings).",
       technique="Lean 4 proof over executable model + differential correspondence with the Python implementation",
       design_ref="DESIGN.md §5 C08")
 
@@ -65,3 +71,19 @@ claim("C18",
            "starting at no node, negative weights): correspondence only.",
       technique="Lean 4 proof over executable model + differential correspondence with the Python implementation",
       design_ref="DESIGN.md §5 C18")
+
+claim("C04",
+      text="Proved over a hand-written Lean model of dmrs.from_mrs and mrs.from_dmrs (on the shared semantic core), for all MRSs "
+           "with pairwise distinct EP identifiers: every link is justified by the source (role of the start predication; target "
+           "is the argument's predication or the first representative of the selected scope; EQ/NEQ by label identity, H for a "
+           "handle constraint, HEQ for a direct label; MOD/EQ between representatives of one scope) with no well-formedness "
+           "hypothesis; node/top/index shape; preservation of the predication sequence by the round trip; totality when the top "
+           "scope has a representative, with a kernel-checked counter-example (F08, known finding) for well-formed input without "
+           "one. Isomorphism of the round trip and equality of the second conversion are decided by the direct oracle on the real "
+           "code (mrs.is_isomorphic plus an independent bijection search; direct comparison).",
+      note="Not proved: isomorphism of the round trip with the stripped source, top/index selecting the same predication, equality "
+           "of the second conversion (oracle on generated well-formed inputs with qeq constraints, x/e/i/p/u IVs, quantifiers "
+           "binding the head of their restriction). Set iteration order in conjoin is a parameter of the model; warnings are not "
+           "observed. Trusted: Lean kernel + 3 standard axioms, the hand-written model (4k comparisons per quick run), harness, oracle.",
+      technique="Lean 4 proof over executable model + differential correspondence with the Python implementation",
+      design_ref="DESIGN.md §5 C04")
